@@ -64,5 +64,61 @@ fn main() {
     raw_frame(T_CONTINUATION, F_END_HEADERS, 1, &[0x84], &mut bytes);
     p.feed(&bytes, &mut out);
     assert!(out.iter().any(|f| f.typ == T_HEADERS && f.interleaved));
+    nghttp2_crosscheck();
     println!("selftest ok");
 }
+
+/// The reference HPACK code is part of the trusted base: cross-check it against libnghttp2.
+#[cfg(not(miri))]
+fn nghttp2_crosscheck() {
+    use vh::nghttp2::{Deflater, Inflater};
+    use vh::rng::Rng;
+    // every Huffman symbol: a literal field whose value is the symbol encoded with the RFC table
+    for sym in 0..=255u8 {
+        let mut blk = vec![0x00, 0x01, b'a'];
+        let mut enc = vec![];
+        huff_encode(&[sym, sym], &mut enc);
+        encode_int(enc.len() as u64, 7, 0x80, &mut blk);
+        blk.extend_from_slice(&enc);
+        let got = Inflater::new().inflate(&blk).expect("nghttp2 inflates the RFC code");
+        assert_eq!(got[0].1, vec![sym, sym], "symbol {}", sym);
+    }
+    // static table
+    for i in 1..=61usize {
+        let got = Inflater::new().inflate(&[0x80 | i as u8]).unwrap();
+        let (n, v) = STATIC_TABLE[i - 1];
+        assert_eq!((got[0].0.as_slice(), got[0].1.as_slice()), (n.as_bytes(), v.as_bytes()), "static index {}", i);
+    }
+    // random histories: reference encoder -> nghttp2 inflater, nghttp2 deflater -> reference decoder
+    let mut rng = Rng::new(0xc0ffee);
+    for _ in 0..300 {
+        let mut enc = RefEncoder::new(4096);
+        let mut inf = Inflater::new();
+        let mut def = Deflater::new(4096);
+        let mut dec = RefDecoder::new(4096);
+        let mut dec2 = RefDecoder::new(4096);
+        for _ in 0..rng.range(1, 12) {
+            let fields: Vec<Field> = (0..rng.range(0, 10))
+                .map(|_| {
+                    let n = rng.pick(&["x-a", "x-b", "cookie", "accept", "x-long-name-0123456789", ":status", "etag"]).as_bytes().to_vec();
+                    let vl = rng.usize_below(60);
+                    let v: Vec<u8> = (0..vl).map(|_| b'a' + rng.below(26) as u8).collect();
+                    (n, v)
+                })
+                .collect();
+            let mut blk = vec![];
+            for (n, v) in &fields {
+                let c = EncChoice { repr: rng.below(4) as u8, use_name_index: rng.chance(1, 2), huff_name: rng.chance(1, 2), huff_value: rng.chance(1, 2), int_pad: 0 };
+                enc.field(n, v, c, &mut blk);
+            }
+            assert_eq!(inf.inflate(&blk).expect("nghttp2 accepts reference encoder output"), fields);
+            assert_eq!(dec.decode(&blk, true, true).unwrap().fields, fields);
+            let blk2 = def.deflate(&fields);
+            assert_eq!(dec2.decode(&blk2, true, true).expect("reference decoder accepts nghttp2 output").fields, fields);
+        }
+    }
+    println!("nghttp2 cross-check ok (256 Huffman symbols, 61 static entries, 300 random histories both ways)");
+}
+
+#[cfg(miri)]
+fn nghttp2_crosscheck() {}
